@@ -4,6 +4,7 @@ import ast
 from .values import V, const, NONE, TRUE, FALSE, is_const, show, obj, clsobj, h5, py
 from .model import AnalysisError, Func, ClassInfo, loc
 from .px_core import Need, _Raise, ExcInfo, Event
+from .values import subterms as _subterms
 from . import tables as T
 
 BINOPS = {ast.Add: "+", ast.Sub: "-", ast.Mult: "*", ast.Div: "/", ast.FloorDiv: "//", ast.Mod: "%", ast.Pow: "**",
@@ -424,6 +425,16 @@ class ExprMixin:
     def _comp(self, e, kind, elt):
         if getattr(self.cfg, "unroll_comps", False) and kind in ("list", "gen") and len(e.generators) == 1:
             return self._comp_unrolled(e, kind, elt)
+        if kind in ("list", "gen") and len(e.generators) == 1 and isinstance(e.generators[0].iter, ast.Name):
+            # a comprehension over a table of known length (a module-level tuple of rules): every row is evaluated
+            try:
+                probe = self.ev(e.generators[0].iter)
+            except AnalysisError:
+                probe = None
+            if probe is not None and probe.t[0] in ("tuple", "list") and 0 < len(probe.t[1]) <= 12 and \
+                    not any(x and x[0] == "star" for x in probe.t[1]) and \
+                    not any(x and x[0] in ("param", "self", "rd", "lres", "elem", "attr", "call", "mcall") for x in _subterms(probe.t)):
+                return self._comp_unrolled(e, kind, elt)
         fr = self.frames[-1]
         saved = dict(fr.env)
         iters = []
